@@ -321,8 +321,20 @@ func gxRecord(c *core.Ctx, progs []*genexec.Prog) *gxTrace {
 // the index (0-based) of the first line TLC could not explain, or -1.
 func gxValidate(c *core.Ctx, lines []string, cfg string) int {
 	hw, total := -1, -1
+	// named deviations that are open known findings of this property are enabled in the trace specification
+	cfgText, err := os.ReadFile(filepath.Join(core.SpecDir(), cfg))
+	if err != nil {
+		core.Machinery("read %s: %v", cfg, err)
+	}
+	var devs []string
+	for _, d := range []string{"nil-pointer-on-mapped-path"} {
+		if core.OpenDeviation(c.Property, d) {
+			devs = append(devs, `"`+d+`"`)
+		}
+	}
+	cfgDyn := strings.Replace(string(cfgText), "Deviations = {}", "Deviations = {"+strings.Join(devs, ", ")+"}", 1)
 	res := core.RunTLC(c.Scratch, core.TLCRun{Module: "GenExecTrace", Config: cfg, Workers: 1, Timeout: minutes(30), HeapGB: 8,
-		Extra: map[string]string{"trace.ndjson": strings.Join(lines, "\n") + "\n"},
+		Extra: map[string]string{"trace.ndjson": strings.Join(lines, "\n") + "\n", cfg: cfgDyn},
 		OnRaw: func(line string) {
 			if m := reHW.FindStringSubmatch(line); m != nil {
 				hw, _ = strconv.Atoi(m[1])
@@ -357,7 +369,7 @@ func gxJudge(c *core.Ctx, t *gxTrace, cfg string, what string) int {
 		}
 		return -1
 	}
-	for iter := 0; iter < 8; iter++ {
+	for iter := 0; iter < 40; iter++ {
 		bad := gxValidate(c, lines, cfg)
 		if bad < 0 {
 			break
@@ -408,7 +420,28 @@ func gxJudge(c *core.Ctx, t *gxTrace, cfg string, what string) int {
 	return rejected
 }
 
-func gxDeviation(p *genexec.Prog, r gxRun, trace []string, at int) string { return "" }
+// gxDeviation names the known deviation a rejected run falls under: predicate on the program and the
+// operand values AND on the observed outcome.
+func gxDeviation(p *genexec.Prog, r gxRun, trace []string, at int) string {
+	// KF-C02-1: a :map source path through a pointer member that is nil at run time panics
+	if p == nil || at < 0 || at >= len(trace) {
+		return ""
+	}
+	hasNpath := false
+	for _, k := range p.Kinds {
+		if k == "npath" {
+			hasNpath = true
+		}
+	}
+	src, _ := r.begin["src"].(map[string]any)
+	var ev map[string]any
+	_ = json.Unmarshal([]byte(trace[at]), &ev)
+	if hasNpath && src["Pn"] == "nil" && ev["ev"] == "end" && ev["panicked"] == true &&
+		strings.Contains(fmt.Sprint(ev["panic"]), "nil pointer dereference") {
+		return "nil-pointer-on-mapped-path"
+	}
+	return ""
+}
 
 func gxCommon(c *core.Ctx, cfg, what string, staticSideExists bool, nontrivial func(gxRun) bool) {
 	keep := 6
@@ -431,6 +464,19 @@ func gxCommon(c *core.Ctx, cfg, what string, staticSideExists bool, nontrivial f
 		return
 	}
 	rej := gxJudge(c, t, cfg, what)
+	if what == "C02" && core.OpenDeviation(c.Property, "nil-pointer-on-mapped-path") {
+		// every run the trace specification accepted only through the named deviation is listed as a known finding
+		for _, r := range t.runs {
+			name, _ := r.begin["fn"].(string)
+			for k, l := range t.lines[r.first : r.last+1] {
+				if strings.Contains(l, `"ev":"end"`) && strings.Contains(l, `"panicked":true`) {
+					if gxDeviation(t.progs[name], r, t.lines[r.first:r.last+1], k) == "nil-pointer-on-mapped-path" {
+						c.Report("nil-pointer-on-mapped-path", "known", "")
+					}
+				}
+			}
+		}
+	}
 	for _, r := range t.runs {
 		if nontrivial(r) {
 			c.Nontrivial(fmt.Sprint(r.begin["fn"], r.begin["faults"], r.begin["vec"]))
